@@ -325,3 +325,23 @@ Proof.
   - cbn [p_init p_c c_init c_autocap]. lia.
   - intros Hmco s v Hv. destruct (Hfin Hmco s v Hv) as [m [H1 [H2 _]]]. eauto.
 Qed.
+
+(* every number held by Capnames is a group number *)
+Theorem prescan_vals : forall lim mco ecma o ts t mks,
+  (ecma = true -> mco = true) -> ts_ok lim mco ecma ts ->
+  prescan mco ecma o ts = Ok (t, mks) -> vals_ok t.
+Proof.
+  intros lim mco ecma o ts t mks Hem [Hlex [Hsmall [Hun [Hlim Hb]]]] H.
+  unfold prescan in H.
+  destruct (prun mco ecma (p_init o) ts) as [[st mks']| | |] eqn:Ep; try discriminate. cbn [bind] in H.
+  pose proof (prun_len _ _ _ _ _ _ Ep) as Hnl. cbn in Hnl.
+  destruct (prun_inv lim Hlim mco ecma ts (p_init o) st mks' (pinv_init lim mco) Hlex Hsmall Hun
+              ltac:(cbn [p_init p_c c_init c_autocap]; lia) Ep) as [Hinv [Hauto _]].
+  cbn [p_init p_c c_init c_autocap] in Hauto.
+  destruct mco.
+  - destruct (assign_ordered ecma (p_c st)) as [t'| | |] eqn:Ea; try discriminate. cbn [bind] in H.
+    injection H as <- _. apply (assign_ordered_vals lim ecma (p_c st) t' Hinv Ea).
+  - destruct (assign_default (p_c st)) as [t'| | |] eqn:Ea; try discriminate. cbn [bind] in H.
+    injection H as <- _. apply (assign_default_vals lim (p_c st) t' Hinv); [|assumption].
+    pose proof (pi_topb _ _ _ Hinv). lia.
+Qed.
